@@ -41,6 +41,10 @@ def _template_coords(draw, n):
     if len(pts) < n:
         pts = [[0.15 * i, 0.0, 0.0] for i in range(n)]
         shape = "linear"
+    if n >= 3 and draw(st.integers(0, 5)) == 0:
+        # two atoms of the template on the same spot (a dummy particle on a bead)
+        pts[1] = list(pts[0])
+        shape = "stacked"
     return pts, shape
 
 
